@@ -36,6 +36,7 @@ def emit(ctx, wd, maxops):
     text = {json.dumps(j["r"], sort_keys=True): j["text"] for j in basis}
     emit.big = ([j for j in res.json if j.get("k") == "bigcfg"], [j for j in res.json if j.get("k") == "bigop"])
     emit.plain = [j for j in res.json if j.get("k") == "optext"]
+    emit.paths = [j for j in res.json if j.get("k") == "pathtext"]
     return cfg[0], basis, [[{"r": r, "text": text[json.dumps(r, sort_keys=True)]} for r in lst] for lst in lists]
 
 
@@ -85,6 +86,20 @@ def main(ctx):
         ev.case(key=("text", j["text"]), nontrivial=True)
         for p in probs:
             ctx.violation("operation_text", {"op": j, "problem": p}, what=p)
+    # multi-level tag paths: segments, element and count as the text spells them
+    from cpppo.server.enip import device
+    if not emit.paths:
+        ctx.machinery.append("no multi-level path texts emitted")
+    for j in emit.paths:
+        ev.case(key=("pathtext", j["text"]), nontrivial=True)
+        want = ([{"symbolic": g["s"]} if g["k"] == "sym" else {"element": g["v"]} for g in j["segs"]], None if j["elm"] < 0 else j["elm"], None if j["cnt"] < 0 else j["cnt"])
+        try:
+            seg, elm, cnt = device.parse_path_elements(j["text"])
+            got = ([dict(x) for x in seg], elm, cnt)
+        except Exception as exc:
+            got = repr(exc)
+        if got != want:
+            ctx.violation("path_text", {"path": j, "got": repr(got)}, what="tag path %r parsed to %r, spells %r" % (j["text"], got, want))
     ev.sample({"operation_text": [j["text"] for j in basis]})
     longer = [[rng.choice(basis) for _ in range(rng.randint(4, 7))] for _ in range(40 if ctx.quick else 400)]
     longer = [[{"r": j["r"], "text": j["text"]} for j in lst] for lst in longer]
@@ -100,6 +115,10 @@ def main(ctx):
     # operate(validating=True): same results
     for lst in rng.sample(lists + longer, 40 if ctx.quick else 400):
         for st in [(0, 0, False, False, True), (2, 0, False, True, False), (1, 500, False, True, True), (0, 0, False, True, False)]:
+            jobs.append((cfg, mem0, lst, st, [0], None))
+    # sender contexts that are binary octets with zeros inside (the client pairs replies with requests by context)
+    for lst in rng.sample(lists + longer, 12 if ctx.quick else 120):
+        for st in [(2, 0, False, False, False, True), (1, 500, False, False, False, True), (0, 0, False, False, False, True)]:
             jobs.append((cfg, mem0, lst, st, [0], None))
     # replies larger than one receive buffer (> 4096 octets): many 100-element reads in one bundle
     bigc, bigops = emit.big
